@@ -241,8 +241,8 @@ func scanDir(dir string, res *result) {
 	for v := range vars {
 		cands := append([]string{}, generic...)
 		for _, w := range dict {
-			if w == v {
-				continue
+			if vars[w] {
+				continue // the name of a variable is not a plausible value
 			}
 			cands = append(cands, w, "all,"+w, w+"=1", w+"=0")
 		}
